@@ -45,10 +45,11 @@ const (
 	opYield
 	opRelease // unlock / done; only a point when PointAtRelease is set
 	opUser
+	opQuiesce
 )
 
 var kindNames = [...]string{"none", "start", "Lock", "RLock", "WAnnounce", "WLock", "Cond.Wait",
-	"Cond.reacquire", "Signal", "Broadcast", "WaitGroup.Wait", "Sleep", "Touch", "Yield", "release", "user"}
+	"Cond.reacquire", "Signal", "Broadcast", "WaitGroup.Wait", "Sleep", "Touch", "Yield", "release", "user", "Quiesce"}
 
 func (k opKind) String() string { return kindNames[k] }
 
@@ -341,7 +342,7 @@ func (e *Exec) enabled(t *thread) bool {
 		return p.wg.n == 0
 	case opSleep:
 		return e.nsteps > t.sleepStep
-	case opNone:
+	case opNone, opQuiesce:
 		return false
 	}
 	return true
@@ -399,6 +400,15 @@ func (e *Exec) schedule(t *thread, finishing bool) {
 		}
 		sort.SliceStable(en, func(i, j int) bool { return en[i].sleepStep < en[j].sleepStep })
 		timePass = len(en) > 0
+		if len(en) == 0 {
+			// nothing else can move: a thread waiting for quiescence continues
+			for _, o := range e.threads {
+				if !o.finished && o.pend.kind == opQuiesce {
+					en = append(en, o)
+					break
+				}
+			}
+		}
 	}
 	if len(en) == 0 {
 		if e.finishedN == len(e.threads) {
@@ -655,6 +665,19 @@ func Sleep(d time.Duration) {
 	}
 	e.running.sleepStep = e.nsteps + 1 // the schedule call below counts one step
 	e.point(op{kind: opSleep})
+}
+
+// Quiesce blocks the calling (driver) thread until no other thread can move:
+// everything else is finished, blocked or itself waiting for quiescence.
+func Quiesce() {
+	e := cur
+	if e == nil {
+		return
+	}
+	if e.aborting {
+		goexit()
+	}
+	e.point(op{kind: opQuiesce})
 }
 
 // Yield is an explicit scheduling point for harness code (e.g. harness stdlib
